@@ -90,7 +90,14 @@ RULE = (
     "slice.indices self-test; file/page lookup for all 1-3 files of 1-3 pages; legacy frame ranges + seeded random programs of 1-4 "
     "operations (frame slice, integer, crop_by_pixels, tuple index, time-string/timestamp slice, define_tether) on "
     "grey/RGB/two-colour, 1-3 file, constant/variable-exposure, legacy-export stacks of up to 60 frames; commuted "
-    "crop/slice pairs; horizontal-tether to_kymo (incl. the F20 class: left tether end cropped away); bead stacks (two "
+    "crop/slice pairs; time-like bounds exhaustively at the frame boundaries (start / exposure stop of every visible frame, "
+    "0/+1 ns, thorough: also -1 ns; absolute timestamps and time strings from the start and from the stop; plain and stepped "
+    "stacks); get_image() of every untethered program on a small stack compared pixel for pixel with the model's own pixel "
+    "values (op c07.image) and with the same NumPy indexing of the full array; to_kymo exhaustively on 3 frames of 4x5 pixels "
+    "(every integer tether row and pair of end columns, half windows -1..2, 0-4 columns cut off the left after the tether, "
+    "reduce = sum/max/min, stacks whose frame rate / exposure is not constant, single frames, RGB / two-colour / legacy) with "
+    "pixel values, line time, exposure and start compared exactly (op c07.kymo); pixel-calibrated stacks (define_tether in um); "
+    "random horizontal-tether to_kymo (incl. the F20 class: left tether end cropped away, and F20b: both ends); bead stacks (two "
     "Gaussian spots; grey, RGB without alignment metadata, RGB with non-identity Bluelake alignment matrices - shifts of "
     "up to 7 px, small rotations/scalings, alignment-ROI offsets - opened with align=True and align=False) with a tether "
     "defined through the two beads at a grid of angles (0, 30, 90, -135, 180 degrees) and at random angles, crops/frame "
@@ -121,10 +128,13 @@ ASSUMPTIONS = [
     "ImageStack.__init__ with 1 and preserved by every operation, proved)",
     "page timestamps are >= 2014-01-01 in ns (smaller integers are frame indices for pylake) and strictly increasing",
     "exposure metadata is an integer number of ns below 2^40 (round(1e6*ms) recovers it exactly)",
-    "to_kymo is exercised for horizontal left-to-right tethers on stacks of >= 2 frames with constant period and a "
-    "tether of >= 2 pixels (a single frame raises an undocumented IndexError, a 1-pixel tether an AxisError from "
-    "numpy's squeeze; rotated tethers go through skimage.warp: geometry of the end points checked, and on bead stacks "
-    "that every colour channel shows the chosen points on them; other interpolated pixel values are not compared)",
+    "to_kymo is exercised for horizontal left-to-right tethers; stacks of < 2 frames raise an undocumented IndexError "
+    "(modelled, not judged by the oracle), a 1-pixel kymograph an AxisError from numpy's squeeze (not generated); "
+    "reduce = np.sum / np.max / np.min (np.mean and user callables are outside); rotated tethers go through skimage.warp: "
+    "geometry of the end points checked, and on bead stacks that every colour channel shows the chosen points on them; other "
+    "interpolated pixel values are not compared",
+    "the to_kymo theorems are about the integer floors of the processed tether ends; model and code take that floor on the "
+    "same doubles",
     "bead stacks: the beads are followed only if, when the points are chosen, every colour channel of the image shows them "
     "at the chosen points within 0.25 px (holds for all generated cases on /repo; counted in coverage.bead_cases_followed)",
 ]
@@ -1996,6 +2006,7 @@ def extra_coverage(results):
         "answers_with_unobserved_internals": unseen,
         "case_kinds": kinds, "error_kinds": errs, "stack_sizes": sizes, "colour_formats": colours, "files_per_stack": files,
         "operations_by_kind": lens, "get_image_pixel_comparisons": image_cases, "to_kymo_branches": kymo_branches, "bead_cases_followed": beads, "exhaustive": False,
-        "exhaustive_note": "small-scope, roi-exhaustive, py-selftest, pages, legacy streams enumerate their finite spaces "
-                           "completely; random-programs, commute, kymo streams are seeded samples",
+        "exhaustive_note": "small-scope, roi-exhaustive, py-selftest, pages, legacy, time-exhaustive, kymo-exhaustive streams "
+                           "enumerate their finite spaces completely; random-programs, commute, kymo, calibrated, beads "
+                           "streams are seeded samples",
     }
